@@ -140,13 +140,16 @@ impl Alphanumeric for String {
     fn _replace(&self, old: Self, new: Self, count: Option<usize>) -> Self {
         let mut replaced_count = 0;
         let mut replaced_string = self.clone();
+        let mut start = 0;
 
-        while let Some(index) = replaced_string.find(old.as_str()) {
+        while let Some(index) = replaced_string[start..].find(old.as_str()).map(|i| i + start) {
             if count.is_some() && replaced_count >= count.unwrap() {
                 break;
             }
 
             replaced_string.replace_range(index..index + old.len(), new.as_str());
+            start = index + new.len() + if old.is_empty() { 1 } else { 0 };
+            if start > replaced_string.len() { break; }
             replaced_count += 1;
         }
 
